@@ -35,6 +35,19 @@ func intVal(t string) Val  { return Val{T: t, S: SInt} }
 // tr translates an expression in state st. Obligations (index, slice, ...) are
 // emitted for program expressions only.
 func (fc *FnCtx) tr(st *State, e ast.Expr) Val {
+	// a constant expression of the program (named constant, local const, "a" + sep ...): its value
+	if fc.scope == nil && fc.specMode == nil {
+		switch e.(type) {
+		case *ast.Ident, *ast.BinaryExpr, *ast.SelectorExpr:
+			if info := fc.info(); info != nil {
+				if tv, ok := info.Types[e]; ok && tv.Value != nil {
+					if v, ok := constVal(tv.Value, tv.Type); ok {
+						return v
+					}
+				}
+			}
+		}
+	}
 	switch x := e.(type) {
 	case *ast.ParenExpr:
 		return fc.tr(st, x.X)
